@@ -12,6 +12,9 @@ Model requests
           cmds=<size>:<adler32>,… ranges=<addr>:<len>:<adler32 of the flash bytes there>,… inputs=<kinds>;… startup=<kinds>` or `err:<kind>`
 `reported calls=… bw=<area>,… W=<id>:<len>,… O=<id>:<itemsize>:<elements>,…`
   answer `csv=<sram>,<dram>,<onchip>,<offchip> console=<area>:<hundredths>,… enc=<n> orig=<n> pt=<scratch>,<fast>`
+`serial1 acc=… ports=… axi=… in=<scratch|->,<fast|->,<flash|->,<hex|-|e> sg=<sg>` one call with given incoming tensors
+  answer `ok s=<size> q=<size> f=<size>:<len>:<adler32> cmd=<size>:<adler32>`
+`sercopy mem=<hex> it=<item>` one copy; answer `ok <len>:<adler32>`
 Spec requests (real values)
 `serflash flash=<hex> P=<addr>!r!<hex>;<addr>!i<size>!<int>.<int>…;…`     → `ok` | `fail <n> <first messages>`
 `serspan what=<name> off=<int> size=<n> T=<addr>:<storage>,…`              → `ok` | `fail …`
@@ -182,6 +185,36 @@ def handle : List String → Option String
       let st := cops.foldl (fun acc (c, _) => startupOutputs ((kv toks "alias").getD "0" == "1") c acc) []
       some (s!"ok scratch={memStr s} fast={memStr q} flash={fl} cmds=" ++ ",".intercalate cmdStr ++ " ranges=" ++ ",".intercalate ranges ++
             " inputs=" ++ ";".intercalate ins ++ " startup=" ++ ",".intercalate (st.map fun t => toString (kindOf t)))
+  | "serial1" :: toks => do
+    -- one call of the serialiser with given incoming tensors: `in=<scratch size|->,<fast size|->,<flash size|->,<flash hex|->`
+    let arch ← parseArch toks
+    let sg ← parseSg (← kv toks "sg")
+    let (s, q, f) ← match splitNE ((kv toks "in").getD "-,-,-,-") "," with
+      | [ss, qs, fs, hx] => do
+        let vals ← if hx == "-" then some none else (hexToBytes (if hx == "e" then "" else hx)).map some
+        let s := (← optNat ss).map fun n => ({ size := n, memArea := arch.scratchArea, memType := .scratch, purpose := .scratch, values := none } : MemTensor)
+        let q := (← optNat qs).map fun n => ({ size := n, memArea := arch.fastArea, memType := .scratchFast, purpose := .scratchFast, values := none } : MemTensor)
+        let f := (← optNat fs).map fun n => ({ size := n, memArea := arch.flashArea, memType := .permanentCPU, purpose := .featureMap, values := vals } : MemTensor)
+        some (s, q, f)
+      | _ => none
+    match serialise arch sg s q f with
+    | .error e => some (errStr e)
+    | .ok r =>
+      let sz := fun (t : Option MemTensor) => match t with | some t => toString t.size | none => "-"
+      let fl := match r.flash with
+        | some t => s!"{t.size}:{(t.values.getD []).length}:{adler (t.values.getD [])}"
+        | none => "-"
+      let cm := match r.cmd with
+        | some t => s!"{t.size}:{adler (t.values.getD [])}"
+        | none => "-"
+      some s!"ok s={sz r.scratch} q={sz r.fast} f={fl} cmd={cm}"
+  | "sercopy" :: toks => do
+    -- one copy into a memory tensor: `mem=<hex> it=<item>`
+    let mem ← hexToBytes ((kv toks "mem").getD "")
+    let o ← parseOp (← kv toks "it")
+    match applyItems (opItems o) mem with
+    | .error e => some (errStr e)
+    | .ok m => some s!"ok {m.length}:{adler m}"
   | "reported" :: toks => do
     let calls ← parseCalls ((kv toks "calls").getD "")
     let bw ← (← parseNats (splitNE ((kv toks "bw").getD "") ",")).mapM areaOf
